@@ -147,6 +147,9 @@ def r06_1_2_3(ctx, A, chk, lastf):
         ctx.missing(R1, 'anchor:key-param', 'the ordering check does not take exactly one byte-slice parameter')
         return
     kx = key_ix[0]
+    from absint import Prover
+    _pv = Prover(ctx.lib)
+    pv_inline = _pv.inline          # private single-path helpers (error_key(bs)) read as their bodies
     for case in itertools.product((0, 1), (0, 1), ('lt', 'eq', 'gt')):
         has_last, dupe, ordv = case
         name = 'last=%s,dupe_check=%s,key%slast' % ('Some' if has_last else 'None', bool(dupe), {'lt': '<', 'eq': '=', 'gt': '>'}[ordv])
@@ -170,6 +173,15 @@ def r06_1_2_3(ctx, A, chk, lastf):
             elif rk == 'err':
                 v, fields = err_variant(rv)
                 outcomes.add(v or 'err?')
+                # the payload is the WHOLE key: a slice, a prefix or a capped copy no longer identifies the offending key
+                for fld_, g_ in sorted(fields.items()):
+                    if v in ('DuplicateKey', 'OutOfOrder') and g_ is not None:
+                        g_i = pv_inline(g_) if pv_inline else g_
+                        part = [x for x in walk(g_i) if (x[0] == 'call' and isinstance(x[1], str) and (
+                            (x[1].endswith('::index') and len(x[2]) == 2 and x[2][1][0] == 'agg' and 'ops::Range' in x[2][1][1] and not x[2][1][1].endswith('RangeFull')) or
+                            x[1].rsplit('::', 1)[-1] in ('split_at', 'truncate', 'take', 'get', 'first', 'last', 'split_first', 'split_last', 'chunks', 'trim_ascii')))]
+                        if part:
+                            ctx.violation(R2, '%s.%s:part' % (v, fld_), '%s.%s carries only a part of the key (%s): the error no longer says which key was rejected' % (v, fld_, part[0][1].rsplit('::', 1)[-1]), fn=chk, detail=fmt(g_i)[:160])
                 if v == 'DuplicateKey':
                     g = fields.get('got')
                     ctx.check(R2, g is not None and mentions_param(g, kx) and not mentions_field(g, lastf), 'DuplicateKey.got', 'DuplicateKey carries %s instead of the offered key' % fmt(g)[:100], fn=chk, detail=fmt(g)[:120])
